@@ -50,13 +50,14 @@ def case_ns(log, order, nf):
         bet = [SR(0) + B.beta_qcd((2 + i, 0), nfs) for i in range(oq)]
         gq = [g[k + 1, 0] for k in range(oq)]
         for steps in (1, 2):
-            al = a[: steps + 1]
-            got = Cx.lift(nsq.dispatcher(order, EvoMethods.ITERATE_EXACT, g, al, [SR(0)] * steps, True, nfs, steps, m0, m1))
-            want = Cx.lift(1)
-            for s in range(1, steps + 1):
-                want = want * Cx.lift(exact(gq, al[s], al[s - 1], bet))
-            v = prove_zero(got - want, "non-singlet QED kernel at aem=0 (%d steps, order %r, nf %d) == product of exact QCD kernels" % (steps, order, nf), timeout_ms=60000)
-            log.decide(v, key="nsqed:aem0", replay=rp, sampler=_sampler)
+            for running in (True, False):
+                al = a[: steps + 1]
+                got = Cx.lift(nsq.dispatcher(order, EvoMethods.ITERATE_EXACT, g, al, [SR(0)] * steps, running, nfs, steps, m0, m1))
+                want = Cx.lift(1)
+                for s in range(1, steps + 1):
+                    want = want * Cx.lift(exact(gq, al[s], al[s - 1], bet))
+                v = prove_zero(got - want, "non-singlet QED kernel at aem=0 (%d steps, alphaem_running=%s, order %r, nf %d) == product of exact QCD kernels" % (steps, running, order, nf), timeout_ms=60000)
+                log.decide(v, key="nsqed:aem0", replay=rp, sampler=_sampler)
         log.twin("domain")
         log.collect_ctx()
 
@@ -225,12 +226,13 @@ def replay_ns(point, order, nf):
     exact = {1: ns.lo_exact, 2: ns.nlo_exact, 3: ns.nnlo_exact, 4: ns.n3lo_exact}[oq]
     bet = [B.beta_qcd((2 + i, 0), nf) for i in range(oq)]
     for steps in (1, 2):
-        got = nsq.dispatcher(tuple(order), EvoMethods.ITERATE_EXACT, g, np.array(al[: steps + 1]), np.zeros(steps), True, nf, steps, f.get("mu2_from", 10.0), f.get("mu2_to", 100.0))
-        want = 1.0
-        for s in range(1, steps + 1):
-            want = want * exact(g[1:, 0], al[s], al[s - 1], bet)
-        if abs(complex(got) - complex(want)) > 1e-9 * max(abs(complex(want)), 1e-30):
-            return {"detail": "non-singlet QED kernel at aem=0 (%d steps, order %r, nf %d) = %r but QCD product = %r" % (steps, order, nf, got, want)}
+        for running in (True, False):
+            got = nsq.dispatcher(tuple(order), EvoMethods.ITERATE_EXACT, g, np.array(al[: steps + 1]), np.zeros(steps), running, nf, steps, f.get("mu2_from", 10.0), f.get("mu2_to", 100.0))
+            want = 1.0
+            for s in range(1, steps + 1):
+                want = want * exact(g[1:, 0], al[s], al[s - 1], bet)
+            if abs(complex(got) - complex(want)) > 1e-9 * max(abs(complex(want)), 1e-30):
+                return {"detail": "non-singlet QED kernel at aem=0 (%d steps, alphaem_running=%s, order %r, nf %d) = %r but QCD product = %r" % (steps, running, order, nf, got, want)}
     return None
 
 
@@ -307,7 +309,7 @@ def main():
     for nf in ((3, 4, 5, 6) if thorough else (4,)):
         for od in ns_orders:
             chk.case("ns.o%d%d.nf%d" % (od[0], od[1], nf), case_ns, order=od, nf=nf)
-    m_orders = [(q, e) for q in (1, 2, 3, 4) for e in (1, 2)] if thorough else [(1, 1), (2, 2), (3, 1)]
+    m_orders = [(q, e) for q in (1, 2, 3, 4) for e in (1, 2)] if thorough else [(1, 1), (2, 2), (3, 1), (4, 1)]
     for od in m_orders:
         for sec in ("singlet", "valence"):
             chk.case("%s.o%d%d" % (sec, od[0], od[1]), case_matrix, order=od, sector=sec)
